@@ -329,7 +329,9 @@ impl RefCtl<'_> {
 }
 
 /// Expected conversation and outcome of `op` for a complete reply script.
-pub fn ref_run(op: Op, own_addr: u16, foreign: u16, typ: SignType, page_lists: &[Vec<Page<'static>>], script: &[Rep]) -> (Vec<Message<'static>>, Outcome) {
+/// The third component is an alternative outcome the statement also allows (a documented don't-care), if any.
+pub fn ref_run(op: Op, own_addr: u16, foreign: u16, typ: SignType, page_lists: &[Vec<Page<'static>>], script: &[Rep]) -> (Vec<Message<'static>>, Outcome, Option<Outcome>) {
+    let alt: std::cell::Cell<Option<Outcome>> = std::cell::Cell::new(None);
     let mut c = RefCtl { own: Address(own_addr), own_addr, foreign, script, sent: vec![] };
     let own = c.own;
     let r: Result<Outcome, Stop> = (|| match op {
@@ -351,6 +353,12 @@ pub fn ref_run(op: Op, own_addr: u16, foreign: u16, typ: SignType, page_lists: &
             c.transfer(Operation::ReceivePixels, &items, State::PixelsReceived, State::PixelsFailed)?;
             c.expect(Message::PixelsComplete(own), None)?;
             let r = c.send(Message::QueryState(own))?;
+            // The closing query tells the flip style: 'showing pages' from the own address means automatic, 'page
+            // loaded' means manual. For any other answer the documentation names both "manual" (what is left when
+            // the sign is not flipping by itself) and "unexpected response": either is accepted, nothing is sent after.
+            if r != Some(Message::ReportState(own, State::ShowingPages)) && r != Some(Message::ReportState(own, State::PageLoaded)) {
+                alt.set(Some(Outcome::Protocol));
+            }
             Ok(Outcome::OkStyle(r == Some(Message::ReportState(own, State::ShowingPages))))
         }
         Op::Show => c.switch(State::PageShown, State::PageLoaded, Operation::ShowLoadedPage).map(|_| Outcome::Ok),
@@ -363,7 +371,12 @@ pub fn ref_run(op: Op, own_addr: u16, foreign: u16, typ: SignType, page_lists: &
         Err(Stop::Bus(i)) => Outcome::Bus(Some(i)),
         Err(Stop::Starved) => Outcome::Starved,
     };
-    (c.sent, outcome)
+    let alt = if matches!(outcome, Outcome::OkStyle(false)) { alt.take() } else { None };
+    (c.sent, outcome, alt)
+}
+
+pub fn is_foreign(r: &Rep) -> bool {
+    matches!(r, Rep::Report { own: false, .. } | Rep::Ack { own: false, .. })
 }
 
 // ---------------------------------------------------------------------------------------------------------
